@@ -1,8 +1,12 @@
 #include "prelude.hpp"
 using namespace altintegration;
+#ifndef AVG
+#define AVG 3
+#endif
 #define REACH __CPROVER_assert(0, "REACH: harness end is reachable (expected to fail)")
 extern "C" {
 void* nondet_ptr();
+int nondet_int();
 // in: [0] height, [1] score, [2] difficulty, [3] ki, [4] payout rounds, [5] keystone round, [6] flat round, [7] use flat round,
 //     [8] start of slope, [9] slope normal, [10] slope keystone, [11] max threshold normal, [12] max threshold keystone, [13..17) round ratios,
 //     [17] relative VBK height of one endorsement, [18] score table length
@@ -19,5 +23,21 @@ void w_rcalc(const int32_t* in, int32_t* out) {
   out[0] = r.v;
   out[1] = c.calculateMinerReward((uint32_t)in[17], s, r).v;
 }
+// sc: per ALT block a (0 = the endorsed block itself for op 0; blocks 0..2 = tip->pprev, its parent, ... for op 1), endorsement j:
+//   [4*(2a+j) ..] = {exists, block of proof id (0..2, else unknown), -, -}; vb: per VBK block {height, on best chain}; avg = averaging interval
+// op 0: scoreFromEndorsements(block 0); op 1: calculateDifficulty(tip) where tip->pprev = block 0 -> block 1 -> block 2 -> null (nchain of them exist)
+int32_t w_rscore(const int32_t* sc, const int32_t* vb, int op, int avg, int nchain) {
+  static VbkIndex v[VB]; static EndorsementShell es[ABLK][EMAX]; static AltIndexShell blk[ABLK + 1];
+  DefaultPopRewardsCalculator c;
+  c.tree_.params.ki = KI; c.tree_.params.pp.tablen = 4; c.tree_.params.pp.avg_ = AVG;   /* harness parameter; the contract requires avg == AVG */
+  for (int i = 0; i < VB; i++) { v[i].height = vb[2 * i]; v[i].onBest = vb[2 * i + 1] != 0; c.tree_.vbk_.all[i] = &v[i]; }
+  for (int a = 0; a < ABLK; a++) {
+    blk[a].ne_ = 0; blk[a].pprev = (a + 1 < nchain) ? &blk[a + 1] : (AltIndexShell*)0;
+    for (int j = 0; j < EMAX; j++) if (sc[4 * (2 * a + j)] != 0) { es[a][j].blockOfProof = sc[4 * (2 * a + j) + 1]; blk[a].e_[blk[a].ne_++] = &es[a][j]; }
+  }
+  blk[ABLK].ne_ = 0; blk[ABLK].pprev = nchain > 0 ? &blk[0] : (AltIndexShell*)0;   // the tip
+  return op == 0 ? c.scoreFromEndorsements(blk[0]).v : c.calculateDifficulty(blk[ABLK]).v;
+}
+void h_rscore() { w_rscore((const int32_t*)nondet_ptr(), (const int32_t*)nondet_ptr(), nondet_int(), nondet_int(), nondet_int()); REACH; }
 void h_rcalc() { w_rcalc((const int32_t*)nondet_ptr(), (int32_t*)nondet_ptr()); REACH; }
 }
